@@ -164,7 +164,13 @@ def place_effect_attrs(rng, p):
 # ---------------------------------------------------------------- C19: crate alias and parameter names
 
 ALIAS = "svx"
-CANDIDATE_NAMES = [chr(c) for c in range(ord("A"), ord("Z") + 1)] + ["Msg", "Query", "Param", "Data", "Exec", "Custom", "Item"]
+CANDIDATE_NAMES = [chr(c) for c in range(ord("A"), ord("Z") + 1)] + ["Msg", "Query", "Param", "Data", "Exec", "Custom", "Item"] + [
+    # further plain words, many of them names of framework items that generated code mentions by path
+    # (not the names the renderer itself writes unqualified in handler signatures: Addr, Binary, Coin, Reply, Response, Empty, ..)
+    "Key", "Value", "Config", "State", "Ctx", "Deps", "Env", "Info", "Storage", "Event", "Token", "Owner",
+    "Admin", "Payload", "Messages", "Sudo", "Migrate", "Instantiate", "Remote", "Interface"]
+# names that are reserved for associated types of interfaces (sylvia documents them) but are ordinary parameter names of a contract
+CONTRACT_ONLY_NAMES = ["Error", "ExecC", "QueryC"]
 
 
 def alias_programs(ctx):
@@ -187,6 +193,10 @@ def alias_programs(ctx):
         d = spec.gen_ep_config_program(rng, f"al_e{i:02d}", rng.sample(spec.ALL_EP_KINDS, 2), True, "legacy", True)
         e = spec.gen_program(rng, f"al_a{i:02d}", n_ifaces=1)
         place_effect_attrs(rng, e)
+        # (the C01 monitor run on this family predicts plain argument keys: leave the key-renaming attribute to C17)
+        for part in e["parts"]:
+            part["msg_attrs"] = [(k, a) for k, a in part["msg_attrs"] if "rename_all_fields" not in a]
+        e["attr_effects"]["upper"] = []
         f = spec.gen_program(rng, f"al_q{i:02d}", n_ifaces=1, customs={"msg": True, "query": True})
         spec.gen_reply_table(rng, f, n_names=2)
         progs += [a, b, c, d, e, f]
@@ -196,8 +206,8 @@ def alias_programs(ctx):
     return out
 
 
-def name_program(name, idx):
-    """A generic contract whose type parameter, and an interface whose associated type, is called `name`."""
+def name_program(name, idx, assoc=True):
+    """A generic contract whose type parameter, and (assoc) an interface whose associated type, is called `name`."""
     import random
     rng = random.Random(idx)
     from . import types as T
@@ -226,6 +236,9 @@ def name_program(name, idx):
     h(c, "migrate", "migrate", [("value", T.tup(g, T.U32))])
     i0 = {"id": "i0", "module": "named_iface", "trait": "NamedIface", "variant": "NamedIface", "handlers": [], "custom_mode": ["assoc", "empty", "fixed"][idx % 3],
           "error": "MonErr", "assoc": [(name, "String")], "assoc_concrete": [(name, "String")]}
+    if not assoc:
+        i0["assoc"], i0["assoc_concrete"] = [], []
+        at = T.STRING
     p["parts"].append(i0)
     h(i0, "exec", "put", [("item", at), ("n", T.U32)])
     h(i0, "query", "get", [("item", T.option(at))], resp=at)
@@ -317,6 +330,8 @@ def name_programs(ctx):
     names = CANDIDATE_NAMES
     for k, nm in enumerate(names):
         out.setdefault(f"nm{k % 8:02d}", []).append(name_program(nm, k))
-    for k, (n1, n2) in enumerate([("Msg", "Data"), ("Z", "A"), ("Query", "Param"), ("T", "E"), ("Item", "Custom")]):
+    for k, nm in enumerate(CONTRACT_ONLY_NAMES):
+        out.setdefault(f"nm{k % 8:02d}", []).append(name_program(nm, len(names) + k, assoc=False))
+    for k, (n1, n2) in enumerate([("Msg", "Data"), ("Z", "A"), ("Query", "Param"), ("T", "E"), ("Item", "Custom"), ("Value", "Key"), ("Error", "Data")]):
         out.setdefault(f"nm{k % 8:02d}", []).append(pair_program(n1, n2, k))
     return out
